@@ -191,6 +191,25 @@ func c15Body(x *Exec, raw json.RawMessage) {
 			sorted := append([][2]int(nil), items...)
 			sort.Slice(sorted, func(i, j int) bool { return sorted[i][0] < sorted[j][0] })
 			x.Obsf("T%d range %v", th, sorted)
+			if native {
+				// set-up phase (sequential): the iteration yields exactly the keys present, each once, with its value
+				seen := map[int]bool{}
+				for _, it := range sorted {
+					if seen[it[0]] {
+						x.Fail("range-duplicate", "Range", "set-up Range yields key %d twice", it[0])
+					}
+					seen[it[0]] = true
+					if v, ok := model[it[0]]; !ok || v != it[1] {
+						x.Fail("range-stale", "Range", "set-up Range yields %d=%d which is not present (the map holds %v)", it[0], it[1], model)
+					}
+				}
+				for k := range model {
+					if !seen[k] {
+						x.Fail("range-missed", "Range", "set-up Range does not yield key %d which is present", k)
+					}
+				}
+				return
+			}
 			lockFree()
 			ranges = append(ranges, rangeRec{c, r, items})
 			unlockFree()
